@@ -27,7 +27,7 @@ import (
 //       under an absolute cap; clause: growth.
 
 const (
-	c01Budget       = 10_000_000   // statements per call for inputs of <= 16 tokens (need: < 10^4)
+	c01Budget       = 2_000_000    // statements per call for inputs of <= 16 tokens (need: < 10^4)
 	c01FamilyBudget = 2_000_000_000 // absolute cap for one call on a 10^4-token input
 )
 
@@ -66,7 +66,9 @@ func init() {
 				maxN = 8192
 			}
 			for i := range enum.SigmaFull {
-				us = append(us, core.Unit{Name: fmt.Sprintf("family|%d|%d", i, maxN), Weight: 6})
+				for f := range frames {
+					us = append(us, core.Unit{Name: fmt.Sprintf("family|%d|%d|%d", i, maxN, f), Weight: 6})
+				}
 			}
 			return us
 		},
@@ -78,9 +80,18 @@ func init() {
 				for _, t := range enum.SigmaFull {
 					blocks = append(blocks, enum.SigmaFull[i]+" "+t)
 				}
+				f, _ := strconv.Atoi(p[3])
+				bad := int64(0)
 				for _, b := range blocks {
-					for f := range frames {
-						w.Do(core.Case{Kind: "family", In: core.BStr(b), Aux: core.BStr(fmt.Sprintf("%d|%s", f, p[2]))})
+					before := w.Counters["violating_cases"]
+					w.Do(core.Case{Kind: "family", In: core.BStr(b), Aux: core.BStr(fmt.Sprintf("%d|%s", f, p[2]))})
+					if w.Counters["violating_cases"] > before {
+						bad++
+					}
+					if bad >= 5 {
+						// every further block of this frame would burn the same budget again
+						w.Inexhaust = "family unit stopped after 5 violating blocks"
+						break
 					}
 				}
 				return
@@ -220,7 +231,12 @@ func c01Family(c core.Case) (res core.Result) {
 	for n := 16; n <= maxN; n *= 2 {
 		reps := n / btoks
 		in := fmt.Sprintf(frames[fi], strings.TrimSpace(strings.Repeat(block+" ", reps)))
-		budget := int64(100_000_000) + 20*int64(n)*int64(n)*int64(n)
+		// hang guard relative to the previous size: 20x the previous total (a quartic blow-up fits,
+		// and is then flagged by the growth test below) plus a constant; never above the absolute cap
+		budget := int64(5_000_000)
+		if prevS > 0 {
+			budget += 20 * prevS
+		}
 		if budget > c01FamilyBudget {
 			budget = c01FamilyBudget
 		}
